@@ -205,7 +205,7 @@ impl Snap {
         let b = |x: bool| if x { 1 } else { 0 };
         format!(
             "{},{},{},{},{},{},{},{},{},{},{},{},{},{},{},{},{},{},{},{},{},{},{},{},{},{}",
-            self.st, self.ip, self.lf, self.lp, if full { self.lb as i64 } else { -1 }, self.lbb, self.ao, self.rm, b(self.le), b(self.init), self.to, self.fm,
+            self.st, self.ip, self.lf, self.lp, if full { if self.lbb == 0 { 0 } else { self.lb as i64 } } else { -1 }, self.lbb, self.ao, self.rm, b(self.le), b(self.init), self.to, self.fm,
             self.q, self.w, self.b, self.hint, b(self.cat), b(self.app), b(self.magic), b(self.lw), self.mode, self.dlcm, b(self.usedict), self.rpos, self.rcur, b(self.fin) * 2 + b(self.more)
         )
     }
